@@ -1,6 +1,7 @@
 //! Harnesses over the transplanted driver-level functions: interval replication (C09 a),
 //! acceptance of replication lists (C09 b), closeness decisions (C11 iii).
 use crate::closest_items::{sort_peers_by_address, Node};
+use crate::driver_fns::get_peers_in_range;
 use crate::cmd::NetworkSwarmCmd;
 use crate::error::NetworkError;
 use crate::event::NetworkEvent;
@@ -18,6 +19,7 @@ pub fn harnesses() -> Vec<Harness> {
         Harness { name: "c09_advertise", property: "C09", f: c09_advertise, about: "interval replication sends every held (address,type) to exactly the replication candidates not served recently" },
         Harness { name: "c09_receive", property: "C09", f: c09_receive, about: "a replication list is acted on only if its sender is a peer among the K closest and not self" },
         Harness { name: "c11_candidates", property: "C11", f: c11_candidates, about: "get_replicate_candidates / get_peers_in_range order and filter exactly as the XOR integer does" },
+        Harness { name: "c11_peers_in_range", property: "C11", f: c11_peers_in_range, about: "get_peers_in_range keeps exactly the peers whose XOR integer distance to the address is <= the range bound, in table order" },
         Harness { name: "c11_sort_peers", property: "C11", f: c11_sort_peers, about: "sort_peers_by_address returns the requested number of nearest peers ascending, or reports too few" },
         Harness { name: "c11_calc_closest", property: "C11", f: c11_calc_closest, about: "calculate_get_closest_peers: range filter exact, k nearest ascending" },
     ]
@@ -229,6 +231,26 @@ fn c11_candidates() {
             }
         }
     }
+}
+
+fn c11_peers_in_range() {
+    crate::shim::init_shim();
+    pin_reference(key(0).as_ref());
+    let target = NetworkAddress::from_record_key(&key(0));
+    let n = 1 + choice(2);
+    let peers: Vec<PeerId> = (1..=n as u8).map(peer).collect();
+    let r = SymU::<256>::fresh("range");
+    let got = get_peers_in_range(&peers, &target, U256(r));
+    // expected: the sub-sequence of peers at distance <= range (solver-decided per peer)
+    let mut expect = vec![];
+    for p in &peers {
+        if d_between(&target, *p).sle(r).get() {
+            expect.push(*p);
+        }
+    }
+    note(format!("peers={n} expected_in_range={} got={}", expect.len(), got.len()));
+    if expect.is_empty() { cover("none_in_range"); } else { cover("some_in_range"); }
+    check_bool("in_range:exactly_the_peers_within_the_bound", got == expect);
 }
 
 fn c11_sort_peers() {
